@@ -1,10 +1,152 @@
-(* Property C08 -- placeholder while the statements are being written (see Proofs/C08_*.v). *)
-From Coq Require Import List String.
-From Verif Require Import Base.Sexp Model.Domain Model.DomainExporter.
+(* Property C08 -- exporting a parsed domain to PDDL text and parsing that text again yields a domain with the same
+   vocabulary whose actions behave identically; numeric constants survive up to the exporter's decimals; a second
+   round changes nothing.  Statements only; proofs in Proofs/C08_*.v.
+
+   Objects.
+   * [export_domain dpre deff m] (Model/DomainExporter.v) is the token tree of the text DomainExporter writes for the
+     domain object m: conditions with dpre decimals (pddl_precondition.DEFAULT_DECIMAL_DIGITS), numeric effects with
+     deff decimals (numerical_expression.DEFAULT_DIGITS).  Text layout is not modelled: every run of the check reads
+     the implementation's text with the model's tokenizer (C11) and compares.
+   * SET ORDERS.  A Python set of the object model is a list of [m] in iteration order, and [export_domain] prints
+     lists in list order.  Every theorem below is stated for EVERY m, hence for every iteration order of every set
+     (another order is another m): nothing is assumed about the order of operands, (in)equality pairs or effects.
+   * [num : string -> option float] is CPython's float() (not modelled; its values are supplied with every case by
+     the harness).  [rnd d x] = float (text of x with d decimals).
+   * [rr_domain num dpre deff m] (Proofs/C08_Defs.v) is m with every constant x replaced by [rnd d x] (d = dpre or
+     deff according to where x occurs) and with the type / constant tables in the order in which write_types /
+     write_constants print them (grouped by parent).  Nothing else differs.
+   * [wf_mdomain num dpre deff m]: decidable well-formedness - what the parser's own checks establish for a domain
+     written in PDDL's section order (declared types / predicates / functions, distinct names, arguments in
+     scope, no repeated argument (D07), comparison heads, 'and' roots, ...), every printed numeral is read by
+     float(), and name hygiene: no type / constant is called '-', no predicate carries a keyword, and NO universal
+     condition has a completely empty body (recorded finding D83, see C08_roundtrip_refuted).  The check evaluates
+     [wf_mdomain] on the model's parse of every generated and every shipped domain (unit 'wf').
+
+   FULL STATEMENT (for every parsed domain):  forall m in the range of parse_domain,
+        parse (export m) = Ok m'  /\  vocabulary m' = vocabulary m  /\  behaviour m' = behaviour m.
+   It is FALSE for the current library (C08_roundtrip_refuted: a universal condition with an empty body is printed
+   as nothing - D83, open) and true on [wf_mdomain] (C08_roundtrip, C08_vocabulary, C08_behaviour_actions ... _successor). *)
+From Coq Require Import List String Bool PrimFloat.
+From Verif Require Import Base.Result Base.Str Base.Sexp Base.PyDict Base.Float
+  Model.Tokenizer Model.Types Model.NumExpr Model.Domain Model.Exec Model.DomainExporter Spec.Pddl Spec.Arith
+  Proofs.C12_Print
+  Corr.Core
+  Proofs.C08_Defs Proofs.C08_Domain Proofs.C08_Behaviour Proofs.C08_Idem Proofs.C08_Vocab Proofs.C08_Range Proofs.C08_Main.
 Import ListNotations.
 Open Scope string_scope.
 
-Theorem C08_export_shape : forall dpre deff m, exists l, export_domain dpre deff m = SList (Atom "define" :: l).
-Proof. intros. eexists. reflexivity. Qed.
+(* Round trip: reading the exported text back succeeds and yields exactly [rr_domain m]: the same names,
+   requirements, predicates, functions, action names, parameters, literals, (in)equality pairs, nesting and
+   quantifiers, operand by operand in the same order; each numeric constant x comes back as float(its numeral). *)
+Theorem C08_roundtrip : forall (num : numparser) (dpre deff : nat) (m : mdomain),
+  wf_mdomain num dpre deff m = true ->
+  parse_domain num (export_domain dpre deff m) = Ok (rr_domain num dpre deff m).
+Proof. exact domain_roundtrip. Qed.
 
-Print Assumptions C08_export_shape.
+(* The hypotheses are satisfiable by a non-trivial domain (types in 3 levels, constants, nested or/and, forall with
+   inequality, when, forall-when, 8 numeric constants one of which (0.125 in a condition) is not representable). *)
+Theorem C08_example :
+  ex_domain = Ok ex_m /\ wf_mdomain ex_num 2 4 ex_m = true /\
+  parse_domain ex_num (export_domain 2 4 ex_m) = Ok (rr_domain ex_num 2 4 ex_m).
+Proof. exact (conj ex_parsed (conj ex_wf ex_roundtrip)). Qed.
+
+(* Range of the parser (actions): every action the parser accepts, written with its sections in the order
+   :parameters, :precondition, :effect, satisfies wf_action with respect to the tables it was parsed against -
+   nested and/or/forall conditions, (in)equalities, comparisons, when / forall-when and numeric effects included -
+   provided no 'forall' of the text has an empty body (D83), no function is named like a comparison or assignment
+   operator, and float() reads every numeral the exporter prints and no token starting with '<' or '>'.  (That the
+   declaration tables are well-formed too is evaluated for every parsed domain by the check, unit 'wf'.) *)
+Theorem C08_range_action : forall (num : numparser) (tt : typetable) (consts : pydict string)
+    (preds funcs : pydict signature) (dpre deff : nat),
+  (forall d s x, num s = Some x -> num_ok num d x = true) ->
+  (forall k, str_in k ("=" :: comparison_ops ++ assignment_ops) = true -> dget funcs k = None) ->
+  (forall c r x, num (String c r) = Some x -> str_in (String c EmptyString) comparison_ops = false) ->
+  forall n ps pre eff a,
+    parse_action num tt consts preds funcs
+      [Atom n; Atom ":parameters"; SList ps; Atom ":precondition"; pre; Atom ":effect"; eff] = Ok a ->
+    no_vac pre = true -> no_vac eff = true ->
+    wf_action num (type_known tt) (dmem consts) preds funcs dpre deff a = true.
+Proof. exact parse_action_wf. Qed.
+
+(* Vocabulary: the re-read domain has the same types (with parents), constants (with types), predicates, functions
+   and action signatures - the canonical vocabulary text the check compares (Corr.Core.model_vocab) is identical,
+   for EVERY domain object (no hypothesis); name and requirements are unchanged too. *)
+Theorem C08_vocabulary : forall (num : numparser) (dpre deff : nat) (m : mdomain),
+  model_vocab (rr_domain num dpre deff m) = model_vocab m /\
+  d_name (rr_domain num dpre deff m) = d_name m /\ d_reqs (rr_domain num dpre deff m) = d_reqs m.
+Proof. intros num dpre deff m. exact (conj (vocab_same num dpre deff m) (conj eq_refl eq_refl)). Qed.
+
+(* Behaviour, for constants representable at the printed precision (float(text of x) = x for every constant of the
+   domain): the re-read domain has literally the same action table, and grounding, applicability and successor
+   computed against the re-read domain (whose type and constant tables are regrouped) are identical to the
+   original's for EVERY action, call, state, object table, tolerance, flag setting and visiting order. *)
+Theorem C08_behaviour_actions : forall (num : numparser) (dpre deff : nat) (m : mdomain),
+  (forall dx, In dx (domain_nums dpre deff m) -> representable num dx) ->
+  d_actions (rr_domain num dpre deff m) = d_actions m.
+Proof. intros num dpre deff m. exact (actions_same num dpre deff m). Qed.
+
+Theorem C08_behaviour_ground : forall (num : numparser) (dpre deff : nat) (m : mdomain),
+  wf_mdomain num dpre deff m = true ->
+  forall a args, ground_action (rr_domain num dpre deff m) a args = ground_action m a args.
+Proof. intros num dpre deff m Hwf. exact (ground_same num dpre deff m Hwf). Qed.
+
+Theorem C08_behaviour_applicable : forall (num : numparser) (dpre deff : nat) (m : mdomain),
+  wf_mdomain num dpre deff m = true ->
+  forall eps objs ga s, is_applicable (rr_domain num dpre deff m) eps objs ga s = is_applicable m eps objs ga s.
+Proof. intros num dpre deff m Hwf. exact (applicable_same num dpre deff m Hwf). Qed.
+
+Theorem C08_behaviour_successor : forall (num : numparser) (dpre deff : nat) (m : mdomain),
+  wf_mdomain num dpre deff m = true ->
+  forall eps ga objs allow skip order uorder s,
+    apply_op (rr_domain num dpre deff m) eps ga objs allow skip order uorder s =
+    apply_op m eps ga objs allow skip order uorder s.
+Proof. intros num dpre deff m Hwf. exact (successor_same num dpre deff m Hwf). Qed.
+
+(* A second round changes nothing: when the values read back are themselves representable (float(text(y)) = y for
+   y = float(text(x)), a fact about CPython's float() that the check re-tests on every numeral it sees), the
+   re-read domain is well-formed again, and exporting and parsing it returns the very same domain object - so the
+   second exported text is the export of the same object. *)
+Theorem C08_idempotent : forall (num : numparser) (dpre deff : nat) (m : mdomain),
+  wf_mdomain num dpre deff m = true ->
+  (forall dx, In dx (domain_nums dpre deff m) -> stable num dx) ->
+  parse_domain num (export_domain dpre deff (rr_domain num dpre deff m)) = Ok (rr_domain num dpre deff m).
+Proof. exact second_round. Qed.
+
+Theorem C08_idempotent_text : forall (num : numparser) (dpre deff : nat) (m : mdomain),
+  wf_mdomain num dpre deff m = true ->
+  (forall dx, In dx (domain_nums dpre deff m) -> stable num dx) ->
+  forall m'', parse_domain num (export_domain dpre deff (rr_domain num dpre deff m)) = Ok m'' ->
+              export_domain dpre deff m'' = export_domain dpre deff (rr_domain num dpre deff m).
+Proof. exact second_export. Qed.
+
+(* The hypothesis excluding empty universal conditions cannot be dropped (finding D83, open): a domain in the range
+   of the parser whose export parses to a domain with DIFFERENT applicability: (forall (?q - a) (or)) is false as
+   soon as an object of type a exists and is printed as nothing; (or (p ?x) (forall (?q - a) (and))) is true and
+   becomes (or (p ?x)).  The witness is replayed on the implementation by the check (corpus case D83). *)
+Theorem C08_roundtrip_refuted :
+  exists (text : string) (m m' : mdomain),
+    (do e <- Tokenizer.parse_string Tokenizer.MStr text; parse_domain no_num e) = Ok m /\
+    parse_domain no_num (export_domain 2 4 m) = Ok m' /\
+    applicable_in m "a1" ["o1"] [("o1", "a")] empty_state = Ok false /\
+    applicable_in m' "a1" ["o1"] [("o1", "a")] empty_state = Ok true /\
+    applicable_in m "a2" ["o1"] [("o1", "a")] empty_state = Ok true /\
+    applicable_in m' "a2" ["o1"] [("o1", "a")] empty_state = Ok false.
+Proof. exists d83_text, d83_m, d83_m'. exact d83_refutes. Qed.
+
+(* Numerals (C12, reused): the numeral printed for ANY constant with ANY number of decimals, read back exactly as a
+   decimal, is within half a unit of the last printed digit of the constant's exact binary value. *)
+Theorem C08_numeral : forall (digits : nat) (v : float), print_ok digits v (num_text digits v) = true.
+Proof. exact C12_print_value_lemma. Qed.
+
+Print Assumptions C08_roundtrip.
+Print Assumptions C08_example.
+Print Assumptions C08_behaviour_actions.
+Print Assumptions C08_behaviour_ground.
+Print Assumptions C08_behaviour_applicable.
+Print Assumptions C08_behaviour_successor.
+Print Assumptions C08_numeral.
+Print Assumptions C08_vocabulary.
+Print Assumptions C08_idempotent.
+Print Assumptions C08_idempotent_text.
+Print Assumptions C08_roundtrip_refuted.
+Print Assumptions C08_range_action.
